@@ -35,11 +35,14 @@ package ovmf
 //@   assigns nothing
 //@   sweep[C08]
 //@   alloc 36 * len(firmware) + 4096
-//@   loop 1 invariant 0 <= it && it <= sevMetadata.Sections && alloc <= 36 * it && (ref(metadataSections) == 0 || fresh(metadataSections))
+//@   ensures[C08] err == nil ==> 12 * len(result0) <= len(firmware)
+//@   loop 1 invariant 0 <= it && it <= sevMetadata.Sections && alloc <= 36 * it && (ref(metadataSections) == 0 || fresh(metadataSections)) && len(metadataSections) == it
 
 //@ func (*SevData).ExtractFromFirmware
 //@   requires d != nil && len(data) < 2147483648
+//@   assigns d.sevEsResetBlock, d.snpMetadataSections
 //@   sweep[C08]
+//@   ensures[C08] 12 * len(d.snpMetadataSections) <= ite(12 * old(len(d.snpMetadataSections)) <= len(data), len(data), 12 * old(len(d.snpMetadataSections)))
 
 // ---- TDX metadata (C08 totality / resources; C05 structure) ----
 // secOK(s, n): what validation establishes for one TDVF metadata section of an n-byte image: a known type, and for
@@ -50,8 +53,8 @@ package ovmf
 //@   sweep[C08]
 //@   alloc 80 * len(firmware) + 8192
 //@   ghostparam a Int
-//@   ensures[C08] err == nil ==> result0 != nil && fresh(result0) && 32 * len(result0.Sections) <= len(firmware) && (ref(result0.Sections) == 0 || fresh(result0.Sections))
-//@   ensures[C08] err == nil && 0 <= a && a < len(result0.Sections) ==> result0.Sections[a] != nil && fresh(result0.Sections[a]) && secOK(result0.Sections[a], len(firmware))
+//@   ensures[C08,C05] err == nil ==> result0 != nil && fresh(result0) && 32 * len(result0.Sections) <= len(firmware) && (ref(result0.Sections) == 0 || fresh(result0.Sections))
+//@   ensures[C08,C05] err == nil && 0 <= a && a < len(result0.Sections) ==> result0.Sections[a] != nil && fresh(result0.Sections[a]) && secOK(result0.Sections[a], len(firmware))
 
 //@ func validateTDXMetadataSections
 //@   requires rawMetadata != nil && rawMetadata.Header != nil
@@ -59,7 +62,7 @@ package ovmf
 //@   assigns nothing
 //@   sweep[C08]
 //@   ghostparam a Int
-//@   ensures[C08] err == nil && 0 <= a && a < len(rawMetadata.Sections) ==> secOK(rawMetadata.Sections[a], firmwareLen)
+//@   ensures[C08,C05] err == nil && 0 <= a && a < len(rawMetadata.Sections) ==> secOK(rawMetadata.Sections[a], firmwareLen)
 //@   loop 1 assigns fvSize
 //@   loop 1 invariant 0 <= a && a <= rangeindex ==> secOK(rawMetadata.Sections[a], firmwareLen)
 
@@ -129,3 +132,36 @@ package ovmf
 //@   ensures[C08] err == nil ==> forall(k, 0 <= k && k < len(result0) ==> result0[k] != nil)
 //@   requires len(firmware) < 2147483648
 //@   sweep[C08]
+
+// ---- SEV-SNP metadata validation (C04 rejection rules, C08 totality) ----
+// Accepted section lists have only non-empty page-multiple sections, at least one unmeasured (1), secrets (2) and
+// CPUID (3) section, and no second secrets or CPUID section.
+//@ func (*SevData).validateSections
+//@   requires d != nil && len(d.snpMetadataSections) < 17592186044416
+//@   assigns nothing
+//@   sweep[C08]
+//@   alloc 64 * len(d.snpMetadataSections) + 4096
+//@   ghostparam a Int
+//@   ghostparam b Int
+//@   ensures[C04] err == nil && 0 <= a && a < len(d.snpMetadataSections) ==> d.snpMetadataSections[a].Length % 4096 == 0 && d.snpMetadataSections[a].Length != 0
+//@   ensures[C04] err == nil && 0 <= a && a < b && b < len(d.snpMetadataSections) && d.snpMetadataSections[a].Kind == d.snpMetadataSections[b].Kind ==> d.snpMetadataSections[a].Kind != 2 && d.snpMetadataSections[a].Kind != 3
+//@   ensures[C04] err == nil ==> exists(i, 0 <= i && i < len(d.snpMetadataSections) && d.snpMetadataSections[i].Kind == 1) && exists(i, 0 <= i && i < len(d.snpMetadataSections) && d.snpMetadataSections[i].Kind == 2) && exists(i, 0 <= i && i < len(d.snpMetadataSections) && d.snpMetadataSections[i].Kind == 3)
+//@   loop 1 invariant allocatedTypeAddress != nil && fresh(allocatedTypeAddress) && len(checkData) == len(d.snpMetadataSections) && fresh(checkData)
+//@   loop 1 invariant 0 <= a && a <= rangeindex ==> d.snpMetadataSections[a].Length % 4096 == 0 && d.snpMetadataSections[a].Length != 0 && has(allocatedTypeAddress, d.snpMetadataSections[a].Kind)
+//@   loop 1 invariant 0 <= a && a < b && b <= rangeindex && d.snpMetadataSections[a].Kind == d.snpMetadataSections[b].Kind ==> d.snpMetadataSections[a].Kind != 2 && d.snpMetadataSections[a].Kind != 3
+//@   loop 1 invariant[C04] 0 <= a && a <= rangeindex ==> checkData[a].start == d.snpMetadataSections[a].Address && checkData[a].end == d.snpMetadataSections[a].Address + d.snpMetadataSections[a].Length && checkData[a].kind == d.snpMetadataSections[a].Kind
+//@   loop 1 invariant forall(k, uint32, has(allocatedTypeAddress, k) ==> exists(i, 0 <= i && i <= rangeindex && d.snpMetadataSections[i].Kind == k))
+//@   loop 2 invariant 0 <= i && len(checkData) == len(d.snpMetadataSections)
+//@   loop 2 decreases[C08] len(checkData) - i
+
+//@ func (*SevData).SnpMetadataSections
+//@   requires d != nil && len(d.snpMetadataSections) < 17592186044416
+//@   assigns nothing
+//@   sweep[C08]
+//@   ensures[C04] err == nil ==> same(result0, d.snpMetadataSections)
+
+//@ func GetRipAndCsBaseFromSevEsResetBlock
+//@   requires sevEsResetBlock != nil
+//@   assigns nothing
+//@   sweep[C08]
+//@   ensures[C04] result2 == nil && result0 == sevEsResetBlock.Addr % 65536 && result1 == sevEsResetBlock.Addr - sevEsResetBlock.Addr % 65536
